@@ -279,6 +279,20 @@ func (g *Gen) run() (err error) {
 		g.in[b] = bst.clone()
 		g.block(b, bst)
 		g.out[b] = bst
+		// loop postconditions: proved on every edge that leaves the loop
+		for _, s := range b.Succs {
+			for _, li := range g.loops {
+				if len(li.spec.After) == 0 || !li.blocks[b] || li.blocks[s] || g.backEdge[[2]int{b.Index, s.Index}] {
+					continue
+				}
+				est := bst.clone()
+				est.r = g.define("x", "Bool", and(bst.r, g.edgeCond(b, s)))
+				env := g.env(est, g.scopeAt(s, b, est))
+				for j, a := range li.spec.After {
+					g.assertExpr(est, env, fmt.Sprintf("loop%d", li.ord), fmt.Sprintf("after%d", j+1), a, li.spec.AfterSrc[j], li.minPos)
+				}
+			}
+		}
 		// back edges leaving this block
 		for _, s := range b.Succs {
 			if g.backEdge[[2]int{b.Index, s.Index}] {
@@ -550,6 +564,11 @@ func (g *Gen) enterLoop(li *loopInfo) *State {
 		}
 		if comps["alloc"] {
 			g.assume(st, "(>= "+g.heapGet(st, "alloc")+" "+oldAlloc+")")
+		}
+		for _, c := range sortedBoolKeys(comps) {
+			if c != "alloc" {
+				g.wfComp(st, c)
+			}
 		}
 		// arrays of composite literals that never escape and are not stored to inside the
 		// loop keep their contents whatever else the loop writes
